@@ -216,6 +216,23 @@ def run(tier, rep):
     for fr in frames + [big]:
         for target in (0xFFFFFF, 0x000001, 0x800000, 0x7FFFFF, 0xFFFFFE, 0x864CFB, 0xFF0000):
             must_reject(fr[:-3] + gen_crc.solve_tail(fr[:-3], target), f"syndrome:{target:06x}", judge=True)
+    # every value of every trailer byte: a wrong trailer is a burst of at most 24 bits, whatever its
+    # value - so each of the three CRC bytes takes each of its 256 values in some damaged frame
+    for fr in frames[:2] + [big]:
+        for posn in (-3, -2, -1):
+            for v in range(256):
+                tail = bytearray(rnd.randrange(256) for _ in range(3))
+                tail[posn] = v
+                if bytes(tail) == fr[-3:]:
+                    tail[(posn + 4) % 3 - 3] ^= 0x10
+                must_reject(fr[:-3] + bytes(tail), f"trailer-byte:{posn}={v:02x}", judge=(v % 64 == 0x1A))
+    # and every value of every HEADER byte position / first payload bytes reached by a single-byte
+    # error (a burst of 8 bits): the byte is replaced by each other value
+    for fr in frames[:1]:
+        for posn in (0, 1, 2, 3, 4, len(fr) // 2):
+            for v in range(256):
+                if v != fr[posn]:
+                    must_reject(fr[:posn] + bytes([v]) + fr[posn + 1:], f"byte:{posn}={v:02x}")
     # frames that embed a shorter, checksum-consistent frame: clearing length bits (a 1- or 2-bit
     # error in the header) must still be rejected - the checksum is over the WHOLE buffer
     def nested(len1, len2):
